@@ -147,8 +147,12 @@ def relational(ctx, c):
     # a common factor on all counts: an ordinary one, a tiny one and a huge one (an absolute threshold, a rounding to a fixed
     # number of decimals or a clip anywhere between x'Mx and the returned number shows only far from the scale of ordinary counts);
     # powers of two where the library is compared exactly
-    factors = [rng.choice(ORDINARY_FACTORS), rng.choice(TINY_POW2 if info.exact_mode else TINY_FACTORS),
-               rng.choice(HUGE_POW2 if info.exact_mode else HUGE_FACTORS)]
+    mags = [abs(float(n)) for _, n in c.mapping if n != 0]
+    factors = [rng.choice(ORDINARY_FACTORS)]
+    if not mags or max(mags) > 1e-6:         # counts that are tiny (huge) already are not scaled down (up) once more:
+        factors.append(rng.choice(TINY_POW2 if info.exact_mode else TINY_FACTORS))      # the squares would leave the doubles
+    if not mags or max(mags) < 1e6:
+        factors.append(rng.choice(HUGE_POW2 if info.exact_mode else HUGE_FACTORS))
     if c.input.get('factor') is not None:
         factors.insert(0, float(c.input['factor']))
     for k in factors:
